@@ -109,7 +109,7 @@ def run_msm(ident, k, g, option, res, labelmsm_value=None, checks=('msm', 'field
         res.count('paths_checked')
         out.append((m, eng))
         if len(res['witnesses']) < 2 and eng.check3() == 'sat':
-            res['witnesses'].append({'kind': 'construct', 'payload': d.payload_from_model(eng.solver.model()).hex(), 'labelmsm': label,
+            res['witnesses'].append({'kind': 'construct', 'payload': d.payload_from_model(eng.model()).hex(), 'labelmsm': label,
                                      'checks': ['msm', 'fields', 'total']})
     res.absorb_engine(eng)
     return d
@@ -137,7 +137,7 @@ def make_directed(ident, k, g, pname="p", spare=1, value_seed=None):
 
 def emit(eng, d, res, ident, k, g, label, why, checks, model=None):
     if model is None and eng.check3() == 'sat':
-        model = eng.solver.model()
+        model = eng.model()
     if model is None:
         res['harness_errors'].append(f"{ident}: no model for {why}")
         return
@@ -203,7 +203,7 @@ def run_pair(spec, res):
 
 def pair_case(eng, da, db, opt, res, why, model=None):
     if model is None and eng.check3() == 'sat':
-        model = eng.solver.model()
+        model = eng.model()
     if model is None:
         res['harness_errors'].append("no model for " + why)
         return
